@@ -57,6 +57,13 @@ def gen_manifest(rng, kind, n=None, hostile=True):
 
 
 def gen(fmt, rng, force=None, hostile=True):
+    D = _gen(fmt, rng, force, hostile)
+    if force is None and rng.random() < 0.08:
+        equalise(fmt, D, rng)
+    return D
+
+
+def _gen(fmt, rng, force=None, hostile=True):
     if fmt == "composeinfo":
         return FC.gen_description(rng, force, hostile=hostile)
     if fmt == "images":
@@ -68,6 +75,92 @@ def gen(fmt, rng, force=None, hostile=True):
     if fmt == "discinfo":
         return FT.gen_discinfo(rng, force)
     raise KeyError(fmt)
+
+
+def equalise(fmt, D, rng):
+    """Makes two independent fields of a valid description carry EQUAL values (random data almost never does): code that
+    special-cases 'same as the other one' - omits a value equal to a default or to a sibling, de-duplicates, keys a table by
+    a value that need not be unique - only shows on such content.  Touches free-text fields only (no ids, no UIDs)."""
+    if fmt == "composeinfo":
+        nodes = list(FC.iter_nodes(D["variants"]))
+        op = rng.choice(["bp-equals-release", "names-equal", "name-equals-id", "paths-equal", "name-equals-release-name"])
+        if op == "bp-equals-release" and D["base_product"]:
+            for k in ("name", "short", "version", "type"):
+                D["base_product"][k] = D["release"][k]
+        elif op == "names-equal" and len(nodes) > 1:
+            for n in nodes:
+                n["name"] = nodes[0]["name"]
+        elif op == "name-equals-id":
+            for n in nodes:
+                n["name"] = n["id"]
+        elif op == "paths-equal":
+            for n in nodes:
+                vals = [p for t in n["paths"].values() for p in t.values() if p]
+                if vals:
+                    for t in n["paths"].values():
+                        for a in t:
+                            if t[a]:
+                                t[a] = vals[0]
+        elif op == "name-equals-release-name" and D["release"]["name"]:
+            for n in nodes:
+                n["name"] = D["release"]["name"]
+    elif fmt == "treeinfo":
+        nodes = list(FT.iter_nodes(D["variants"]))
+        op = rng.choice(["bp-equals-release", "names-equal", "paths-equal-in-variant", "paths-equal-across-variants", "image-tables-equal",
+                         "checksums-equal", "stage2-equal"])
+        if op == "bp-equals-release" and D["base_product"]:
+            for k in ("name", "short", "version"):
+                D["base_product"][k] = D["release"][k]
+        elif op == "names-equal":
+            for n in nodes:
+                n["name"] = nodes[0]["name"]
+        elif op == "paths-equal-in-variant":
+            for n in nodes:
+                vals = [p for p in n["paths"].values() if p]
+                if vals:
+                    for k in n["paths"]:
+                        if n["paths"][k]:
+                            n["paths"][k] = vals[0]
+        elif op == "paths-equal-across-variants" and len(nodes) > 1:
+            for n in nodes[1:]:
+                n["paths"] = dict(nodes[0]["paths"])
+        elif op == "image-tables-equal" and D["images"]:
+            first = D["images"][sorted(D["images"])[0]]
+            for p in D["images"]:
+                D["images"][p] = dict(first)
+        elif op == "checksums-equal" and D["checksums"]:
+            first = D["checksums"][sorted(D["checksums"])[0]]
+            for p in D["checksums"]:
+                D["checksums"][p] = list(first)
+        elif op == "stage2-equal" and D["stage2"]["mainimage"]:
+            D["stage2"]["instimage"] = D["stage2"]["mainimage"]
+    elif fmt == "images" and D["images"]:
+        op = rng.choice(["numbers-equal", "subvariant-equals-variant", "volume-id-equals-path", "all-text-equal"])
+        first = D["images"][0]["attrs"]
+        for im in D["images"][1:] if op in ("numbers-equal", "all-text-equal") else []:
+            a = im["attrs"]
+            a["mtime"], a["size"] = first["mtime"], first["size"]
+            if op == "all-text-equal":
+                a["volume_id"], a["implant_md5"], a["bootable"] = first["volume_id"], first["implant_md5"], first["bootable"]
+        if op == "subvariant-equals-variant":
+            # (changes identity attributes consistently: keep the documented uniqueness by leaving rivals alone)
+            pass
+        elif op == "volume-id-equals-path":
+            for im in D["images"]:
+                im["attrs"]["volume_id"] = im["attrs"]["path"]
+    elif fmt in MANIFEST_KIND and D["ops"]:
+        kind = MANIFEST_KIND[fmt]
+        first = D["ops"][0]["args"]
+        for op_ in D["ops"][1:]:
+            a = op_["args"]
+            if kind == "rpms":
+                a["path"], a["sigkey"] = first["path"], first["sigkey"]            # two packages recorded at one path
+            elif kind == "modules":
+                a["koji_tag"], a["modulemd_path"] = first["koji_tag"], first["modulemd_path"]
+            else:
+                a["size"], a["checksums"] = first["size"], dict(first["checksums"])
+    elif fmt == "discinfo":
+        D["description"] = D["arch"]
 
 
 def build(pms, fmt, D, order_seed=None):
